@@ -1,6 +1,383 @@
-//! ops family `treemap` (stub — replaced when the family is implemented)
+//! `RoaringTreemap` mutation / query ops (C10), 64-bit iterators (C12); `tdump` is the canonical observable.
 use super::*;
+use roaring::MultiOps;
 
-pub fn handle(_st: &mut State, _toks: &[&str]) -> HResult {
-    None
+pub fn tdump_set(t: &RoaringTreemap) -> String {
+    let mut h = FNV_BASIS;
+    let mut n: u64 = 0;
+    let mut first = None;
+    let mut last = None;
+    let mut small: Vec<u64> = Vec::new();
+    for x in t.iter() {
+        h = fnv_step(h, x);
+        if first.is_none() {
+            first = Some(x);
+        }
+        last = Some(x);
+        if n < 33 {
+            small.push(x);
+        }
+        n += 1;
+    }
+    let mut s = format!("len={} min={} max={} eh={:016x}", n, show_opt(first), show_opt(last), h);
+    if n <= 32 {
+        s.push_str(" e=");
+        s.push_str(&small.iter().map(|x| x.to_string()).collect::<Vec<_>>().join(","));
+    }
+    s
+}
+
+fn show_parts(ps: &[Option<(u32, u64)>]) -> String {
+    if ps.is_empty() {
+        return "-".to_string();
+    }
+    ps.iter()
+        .map(|p| match p {
+            Some((k, n)) => format!("{}:{}", k, n),
+            None => "none".to_string(),
+        })
+        .collect::<Vec<_>>()
+        .join(",")
+}
+
+pub fn tdump(t: &RoaringTreemap) -> String {
+    let parts: Vec<Option<(u32, u64)>> = t.bitmaps().map(|(k, b)| Some((k, b.len()))).collect();
+    format!("{} | parts=[{}]", tdump_set(t), show_parts(&parts))
+}
+
+struct Borrowed(roaring::treemap::Iter<'static>);
+struct Owned(roaring::treemap::IntoIter);
+
+impl It64 for Borrowed {
+    fn next(&mut self) -> Option<u64> {
+        self.0.next()
+    }
+    fn next_back(&mut self) -> Option<u64> {
+        self.0.next_back()
+    }
+    fn advance_to(&mut self, n: u64) {
+        self.0.advance_to(n)
+    }
+    fn advance_back_to(&mut self, n: u64) {
+        self.0.advance_back_to(n)
+    }
+    fn size_hint(&self) -> (usize, Option<usize>) {
+        self.0.size_hint()
+    }
+}
+
+impl It64 for Owned {
+    fn next(&mut self) -> Option<u64> {
+        self.0.next()
+    }
+    fn next_back(&mut self) -> Option<u64> {
+        self.0.next_back()
+    }
+    fn advance_to(&mut self, _n: u64) {}
+    fn advance_back_to(&mut self, _n: u64) {}
+    fn size_hint(&self) -> (usize, Option<usize>) {
+        self.0.size_hint()
+    }
+    fn has_advance(&self) -> bool {
+        false
+    }
+}
+
+pub fn handle(st: &mut State, toks: &[&str]) -> HResult {
+    macro_rules! t {
+        ($t:expr) => {
+            st.tm[slot('t', $t)?].as_mut()?
+        };
+    }
+    macro_rules! j {
+        ($t:expr) => {
+            st.jt[slot('j', $t)?].as_mut()?
+        };
+    }
+    let ok = || Some("ok".to_string());
+    match toks {
+        ["tnew", d] => {
+            st.tm[slot('t', d)?] = Some(RoaringTreemap::new());
+            ok()
+        }
+        ["tclone", d, s] => {
+            let i = slot('t', d)?;
+            let c = st.tm[slot('t', s)?].as_ref()?.clone();
+            st.tm[i] = Some(c);
+            ok()
+        }
+        ["tinsert", d, v] => Some(t!(d).insert(v.parse().ok()?).to_string()),
+        ["tremove", d, v] => Some(t!(d).remove(v.parse().ok()?).to_string()),
+        ["tinsert_range", d, lo, hi] => {
+            let x = t!(d);
+            let r = (bound::<u64>(lo)?, bound::<u64>(hi)?);
+            Some(x.insert_range(r).to_string())
+        }
+        ["tremove_range", d, lo, hi] => {
+            let x = t!(d);
+            let r = (bound::<u64>(lo)?, bound::<u64>(hi)?);
+            Some(x.remove_range(r).to_string())
+        }
+        ["tpush", d, v] => Some(t!(d).push(v.parse().ok()?).to_string()),
+        ["tappend", d, vs @ ..] => {
+            let x = t!(d);
+            let vs: Vec<u64> = nats(vs)?;
+            Some(match x.append(vs) {
+                Ok(n) => format!("ok {}", n),
+                Err(e) => format!("err {}", e.valid_until()),
+            })
+        }
+        ["tfrom_sorted", d, vs @ ..] => {
+            let i = slot('t', d)?;
+            let vs: Vec<u64> = nats(vs)?;
+            Some(match RoaringTreemap::from_sorted_iter(vs) {
+                Ok(b) => {
+                    st.tm[i] = Some(b);
+                    "ok".to_string()
+                }
+                Err(e) => format!("err {}", e.valid_until()),
+            })
+        }
+        ["textend", d, vs @ ..] => {
+            let x = t!(d);
+            let vs: Vec<u64> = nats(vs)?;
+            x.extend(vs);
+            ok()
+        }
+        ["tfrom_iter", d, vs @ ..] => {
+            let i = slot('t', d)?;
+            let vs: Vec<u64> = nats(vs)?;
+            st.tm[i] = Some(vs.into_iter().collect());
+            ok()
+        }
+        ["tclear", d] => {
+            t!(d).clear();
+            ok()
+        }
+        ["tcontains", d, v] => Some(t!(d).contains(v.parse().ok()?).to_string()),
+        ["tlen", d] => Some(t!(d).len().to_string()),
+        ["tis_empty", d] => Some(t!(d).is_empty().to_string()),
+        ["tis_full", d] => Some(t!(d).is_full().to_string()),
+        ["tmin", d] => Some(show_opt(t!(d).min())),
+        ["tmax", d] => Some(show_opt(t!(d).max())),
+        ["trank", d, v] => Some(t!(d).rank(v.parse().ok()?).to_string()),
+        ["tselect", d, n] => Some(show_opt(t!(d).select(n.parse().ok()?))),
+        ["teq", a, c] => {
+            let x = st.tm[slot('t', a)?].as_ref()?;
+            let y = st.tm[slot('t', c)?].as_ref()?;
+            Some((x == y).to_string())
+        }
+        ["tfrom_bitmaps", d, items @ ..] => {
+            let i = slot('t', d)?;
+            if items.len() % 2 != 0 {
+                return None;
+            }
+            let mut v: Vec<(u32, RoaringBitmap)> = Vec::new();
+            for kv in items.chunks(2) {
+                let k: u32 = kv[0].parse().ok()?;
+                let b = st.bm[slot('b', kv[1])?].as_ref()?.clone();
+                v.push((k, b));
+            }
+            st.tm[i] = Some(RoaringTreemap::from_bitmaps(v));
+            ok()
+        }
+        ["tbitmaps", d] => {
+            let x = st.tm[slot('t', d)?].as_ref()?;
+            let mut it = x.bitmaps();
+            let mut out = Vec::new();
+            loop {
+                let r = it.next().map(|(k, b)| (k, b.len()));
+                out.push(r);
+                if r.is_none() {
+                    break;
+                }
+            }
+            Some(show_parts(&out))
+        }
+        ["tbitmaps_rev", d] => {
+            let x = st.tm[slot('t', d)?].as_ref()?;
+            let mut it = x.bitmaps();
+            let mut out = Vec::new();
+            loop {
+                let r = it.next_back().map(|(k, b)| (k, b.len()));
+                out.push(r);
+                if r.is_none() {
+                    break;
+                }
+            }
+            Some(show_parts(&out))
+        }
+        ["tbitmaps_mix", d, pat] => {
+            let x = st.tm[slot('t', d)?].as_ref()?;
+            if !pat.chars().all(|c| c == 'f' || c == 'b') {
+                return None;
+            }
+            let mut it = x.bitmaps();
+            let mut out = Vec::new();
+            for c in pat.chars() {
+                let r = if c == 'f' { it.next() } else { it.next_back() };
+                out.push(r.map(|(k, b)| (k, b.len())));
+            }
+            Some(show_parts(&out))
+        }
+        ["tdump", d] => Some(tdump(st.tm[slot('t', d)?].as_ref()?)),
+        // ---- 64-bit iterators
+        ["titer", s, k] => {
+            let x = st.tm[slot('t', s)?].as_ref()?;
+            let k = slot('j', k)?;
+            // the borrowing iterator runs over a leaked clone so that it can outlive later mutations of the slot
+            let leaked: &'static RoaringTreemap = Box::leak(Box::new(x.clone()));
+            st.jt[k] = Some(Box::new(Borrowed(leaked.iter())));
+            ok()
+        }
+        ["tinto_iter", s, k] => {
+            let x = st.tm[slot('t', s)?].as_ref()?;
+            let k = slot('j', k)?;
+            st.jt[k] = Some(Box::new(Owned(x.clone().into_iter())));
+            ok()
+        }
+        ["jnext", k] => Some(show_opt(j!(k).next())),
+        ["jnext_back", k] => Some(show_opt(j!(k).next_back())),
+        ["jadvance_to", k, v] => {
+            let it = j!(k);
+            let v: u64 = v.parse().ok()?;
+            if !it.has_advance() {
+                return None;
+            }
+            it.advance_to(v);
+            ok()
+        }
+        ["jadvance_back_to", k, v] => {
+            let it = j!(k);
+            let v: u64 = v.parse().ok()?;
+            if !it.has_advance() {
+                return None;
+            }
+            it.advance_back_to(v);
+            ok()
+        }
+        ["jsize_hint", k] => {
+            let (lo, hi) = j!(k).size_hint();
+            Some(format!("{},{}", lo, show_opt(hi)))
+        }
+        ["jdrain_fwd", k] => {
+            let it = j!(k);
+            let (mut n, mut h) = (0u64, FNV_BASIS);
+            while let Some(v) = it.next() {
+                n += 1;
+                h = fnv_step(h, v);
+            }
+            Some(format!("n={} h={:016x}", n, h))
+        }
+        ["jdrain_rev", k] => {
+            let it = j!(k);
+            let (mut n, mut h) = (0u64, FNV_BASIS);
+            while let Some(v) = it.next_back() {
+                n += 1;
+                h = fnv_step(h, v);
+            }
+            Some(format!("n={} h={:016x}", n, h))
+        }
+        // ---- algebra (C11)
+        [op @ ("tor" | "tand" | "tsub" | "txor"), form, d, l, r] => {
+            let i = slot('t', d)?;
+            let a = st.tm[slot('t', l)?].as_ref()?.clone();
+            let b = st.tm[slot('t', r)?].as_ref()?.clone();
+            let (na, nb) = (a.bitmaps().count(), b.bitmaps().count());
+            macro_rules! forms {
+                ($o:tt, $oa:tt) => {
+                    match *form {
+                        "oo" => a $o b,
+                        "or" => a $o &b,
+                        "ro" => &a $o b,
+                        "rr" => &a $o &b,
+                        "ao" => {
+                            let mut x = a;
+                            x $oa b;
+                            x
+                        }
+                        "ar" => {
+                            let mut x = a;
+                            x $oa &b;
+                            x
+                        }
+                        _ => return None,
+                    }
+                };
+            }
+            let res = match *op {
+                "tor" => forms!(|, |=),
+                "tand" => forms!(&, &=),
+                "tsub" => forms!(-, -=),
+                _ => forms!(^, ^=),
+            };
+            let out = format!("ok {},{}->{}", na, nb, res.bitmaps().count());
+            st.tm[i] = Some(res);
+            Some(out)
+        }
+        [op @ ("tis_subset" | "tis_superset" | "tis_disjoint" | "tinter_len" | "tunion_len" | "tdiff_len" | "txor_len"), l, r] => {
+            let a = st.tm[slot('t', l)?].as_ref()?;
+            let b = st.tm[slot('t', r)?].as_ref()?;
+            Some(match *op {
+                "tis_subset" => a.is_subset(b).to_string(),
+                "tis_superset" => a.is_superset(b).to_string(),
+                "tis_disjoint" => a.is_disjoint(b).to_string(),
+                "tinter_len" => a.intersection_len(b).to_string(),
+                "tunion_len" => a.union_len(b).to_string(),
+                "tdiff_len" => a.difference_len(b).to_string(),
+                _ => a.symmetric_difference_len(b).to_string(),
+            })
+        }
+        ["tmulti", op, kind, d, items @ ..] => {
+            if !matches!(*op, "or" | "and" | "sub" | "xor") {
+                return None;
+            }
+            let i = slot('t', d)?;
+            let mut parsed: Vec<Result<usize, u64>> = Vec::new();
+            for t in items.iter().rev() {
+                // (parsed right to left like the driver, so that the same token decides `bad-op`)
+                if let Some(e) = t.strip_prefix("err:") {
+                    parsed.push(Err(e.parse::<u64>().ok()?));
+                } else {
+                    let k = slot('t', t)?;
+                    st.tm[k].as_ref()?;
+                    parsed.push(Ok(k));
+                }
+            }
+            parsed.reverse();
+            let is_res = match *kind {
+                "own" | "ref" => false,
+                "res_own" | "res_ref" => true,
+                _ => return None,
+            };
+            if !is_res && parsed.iter().any(|p| p.is_err()) {
+                return None;
+            }
+            let tm = &st.tm;
+            macro_rules! run {
+                ($it:expr) => {
+                    match *op {
+                        "or" => $it.union(),
+                        "and" => $it.intersection(),
+                        "sub" => $it.difference(),
+                        _ => $it.symmetric_difference(),
+                    }
+                };
+            }
+            let res: Result<RoaringTreemap, u64> = match *kind {
+                "own" => Ok(run!(parsed.iter().map(|p| tm[*p.as_ref().unwrap()].as_ref().unwrap().clone()))),
+                "ref" => Ok(run!(parsed.iter().map(|p| tm[*p.as_ref().unwrap()].as_ref().unwrap()))),
+                "res_own" => run!(parsed.iter().map(|p| p.map(|k| tm[k].as_ref().unwrap().clone()))),
+                _ => run!(parsed.iter().map(|p| p.map(|k| tm[k].as_ref().unwrap()))),
+            };
+            Some(match res {
+                Ok(v) => {
+                    st.tm[i] = Some(v);
+                    "ok".to_string()
+                }
+                Err(e) => format!("err:{}", e),
+            })
+        }
+        _ => None,
+    }
 }
